@@ -1445,33 +1445,6 @@ fn ob_c17_partition_pop_expression_bytes(buf: [u8; 4], len: usize, n: usize) {
     assert!(r.as_ptr() as usize == s.as_ptr() as usize + m, "C17 the bytes are removed from the front");
 }
 
-//@ob C19.non-trivial.repetition
-//@ props: C19 C05
-//@ kind: complete
-//@ unwind: 4
-//@ fns: src/token/mod.rs::Token::into_non_trivial src/token/mod.rs::Repetition::variance src/token/variance/natural.rs::NaturalRange::is_one
-//@ pre: a repetition token with a leaf body and any bounds (all usize x Option<usize>)
-//@ post: the REAL into_non_trivial (used when patterns are combined) collapses the repetition to its body exactly when it occurs exactly once (`<x:1,1>`); every other repetition is returned as it is, with the same bounds -- re-expressing a pattern never drops or changes a repetition that matters
-fn ob_c19_non_trivial_repetition(lower: usize, bounded: bool, upper: usize) {
-    let up = if bounded { Some(upper) } else { None };
-    let rep: Token<'static, ()> = Token::new(BranchKind::Repetition(Repetition { token: Box::new(leaf_token(1)), lower, upper: up }), ());
-    vcover!(lower == 1 && bounded && upper == 1);
-    vcover!(lower == 1 && !bounded);
-    let out = rep.into_non_trivial();
-    let once = (lower == 1 && up == Some(1)) || (bounded && lower == 1 && upper == 1);
-    match out.as_repetition() {
-        None => {
-            assert!(once, "C19 only a once-only repetition is collapsed");
-            assert!(matches!(out.as_leaf(), Some(LeafKind::Wildcard(Wildcard::One))), "C19 a collapsed repetition is its body");
-        },
-        Some(r) => {
-            assert!(!once, "C19 a once-only repetition is collapsed to its body");
-            assert!(r.bound_specification() == (lower, up), "C19 other repetitions keep their bounds");
-        },
-    }
-    core::mem::forget(out);
-}
-
 //@ob C10.token.canary
 //@ props: C10
 //@ kind: canary
